@@ -40,6 +40,14 @@ class Func:
         return f"{self.mod.rel}:{getattr(self.node, 'lineno', 0)}"
 
 
+class ResolvedNode(ast.AST):
+    """stands for an expression whose value was computed by the evaluator: resolve_expr returns `r` directly"""
+    _fields = ()
+    def __init__(self, r, text=''):
+        super().__init__()
+        self.r = r; self.text = text; self.lineno = getattr(r[2], 'lineno', 0) if r else 0; self.col_offset = 0; self.end_lineno = self.lineno; self.end_col_offset = 0
+
+
 class Program:
     def __init__(self, root: str = '/repo/src', sources: dict | None = None):
         """root: directory containing the package;  sources: {relative path: source text} (in-memory program, used by self-tests)"""
@@ -166,6 +174,7 @@ class Program:
 
     def resolve_expr(self, m: Module, e: ast.AST, _depth=0):
         """Resolve Name or dotted Attribute chains that denote package objects."""
+        if isinstance(e, ResolvedNode): return e.r
         if isinstance(e, ast.Name):
             return self.resolve(m, e.id, _depth)
         if isinstance(e, ast.Attribute):
@@ -256,9 +265,73 @@ class Program:
         """Entries of a module-level dict literal: [(key, key_node, value_node)]."""
         m = self.mod(short_mod)
         d = m.defs.get(name)
-        if not isinstance(d, ast.Dict):
-            raise KeyError(f'{short_mod}.{name} is not a dict literal')
-        return [(self.const_key(m, k), k, v) for k, v in zip(d.keys, d.values)]
+        def writes(st):
+            if isinstance(st, ast.Assign) and any(isinstance(t, ast.Subscript) and isinstance(t.value, ast.Name) and t.value.id == name for t in st.targets): return True
+            if isinstance(st, ast.AugAssign) and isinstance(st.target, ast.Name) and st.target.id == name: return True
+            if isinstance(st, ast.Expr) and isinstance(st.value, ast.Call) and isinstance(st.value.func, ast.Attribute) and isinstance(st.value.func.value, ast.Name) \
+                    and st.value.func.value.id == name and st.value.func.attr in ('update', 'setdefault', 'pop', 'clear'): return True
+            return False
+        later_writes = any(writes(st) for st in m.tree.body)
+        if isinstance(d, ast.Dict) and d.keys and all(k is not None for k in d.keys) and not later_writes and not self.is_filled_at_import(m, name):
+            return [(self.const_key(m, k), k, v) for k, v in zip(d.keys, d.values)]
+        return self._table_by_evaluation(m, short_mod, name)
+
+    def is_filled_at_import(self, m, name):
+        """is the module-level name `name` written again by top-level statements after its definition (or inside decorators applied at import)?"""
+        cache = self.__dict__.setdefault('_filled_cache', {})
+        k = (m.name, name)
+        if k in cache: return cache[k]
+        def writes(st):
+            if isinstance(st, ast.Assign) and any(isinstance(t, ast.Subscript) and isinstance(t.value, ast.Name) and t.value.id == name for t in st.targets): return True
+            if isinstance(st, ast.AugAssign) and isinstance(st.target, ast.Name) and st.target.id == name: return True
+            if isinstance(st, ast.Expr) and isinstance(st.value, ast.Call) and isinstance(st.value.func, ast.Attribute) and isinstance(st.value.func.value, ast.Name) \
+                    and st.value.func.value.id == name and st.value.func.attr in ('update', 'setdefault', 'pop', 'clear', 'append', 'extend'): return True
+            return False
+        r = any(writes(st) for st in m.tree.body)
+        if not r:
+            # a registration decorator: a module-level function that stores into `name` and is used as decorator somewhere in the module
+            decos = {ast.unparse(d.func if isinstance(d, ast.Call) else d) for st in ast.walk(m.tree) if isinstance(st, ast.FunctionDef) for d in st.decorator_list}
+            for st in m.tree.body:
+                if isinstance(st, ast.FunctionDef) and st.name in decos and any(writes(x) for x in ast.walk(st) if isinstance(x, ast.stmt)): r = True
+        cache[k] = r
+        return r
+
+    def module_namespace(self, m):
+        cache = self.__dict__.setdefault('_modenv_cache', {})
+        if m.name not in cache:
+            cache[m.name] = {}
+            from .terms import Evaluator
+            cache[m.name] = Evaluator(self).exec_module(m)
+        return cache[m.name]
+
+    def _table_by_evaluation(self, m, short_mod, name):
+        """a dispatch table that is not written as one dict literal (dict(...), zip, merged sub-tables, a decorator registry): run the
+        module's top level through the term evaluator and read the resulting dictionary; values come back as resolved nodes"""
+        from .terms import Evaluator, Ref, Closure
+        cache = self.__dict__.setdefault('_table_cache', {})
+        if (short_mod, name) in cache: return cache[(short_mod, name)]
+        env = self.module_namespace(m)
+        val = env.get(name)
+        if not isinstance(val, dict) or not val:
+            raise KeyError(f'{short_mod}.{name} is not a dict literal and does not evaluate to a dictionary')
+        out = []
+        for k, v in val.items():
+            kv = k.v if hasattr(k, 'v') else k
+            def as_node(v):
+                if isinstance(v, Ref) and v.kind in ('func', 'class'): return ResolvedNode((v.kind, v.mod, v.node))
+                if isinstance(v, Closure) and isinstance(v.node, ast.Lambda): return v.node
+                if isinstance(v, Closure): return ResolvedNode(('func', v.mod, v.node))
+                if isinstance(v, (tuple, list)):
+                    t = ast.Tuple(elts=[as_node(x) for x in v], ctx=ast.Load()); t.lineno = 0; t.col_offset = 0
+                    return t
+                if isinstance(v, (str, int, bool)) or v is None: return ast.Constant(value=v)
+                return ResolvedNode(None, repr(v)[:80])
+            if isinstance(kv, (Ref, Closure)): key = kv.name
+            elif isinstance(kv, (str, int, bool)) or kv is None: key = kv
+            else: raise KeyError(f'{short_mod}.{name}: key {kv!r} not understood')
+            out.append((key, as_node(kv), as_node(v)))
+        cache[(short_mod, name)] = out
+        return out
 
     def func(self, short_mod: str, name: str) -> Func:
         q = f'{short_mod}::{name}'
